@@ -41,13 +41,35 @@ struct Case {
     /// a present pack whose stored bytes are damaged (0 = none)
     damaged: u16,
     order_seed: u64,
+    /// open with `Container::new_with_locator` and a locator the application provides (a search
+    /// path over directories) instead of `Container::new`
+    custom_locator: bool,
+}
+
+/// An application-provided locator: looks the recorded location up in a list of directories.
+/// It knows nothing about uuids - telling a foreign pack from the right one is the container's job.
+struct SearchPathLocator {
+    dirs: Vec<std::path::PathBuf>,
+}
+
+impl jubako::reader::PackLocatorTrait for SearchPathLocator {
+    fn locate(&self, _uuid: uuid::Uuid, helper: &str) -> jubako::Result<Option<jubako::Reader>> {
+        for d in &self.dirs {
+            let p = d.join(helper);
+            if p.is_file() {
+                return Ok(Some(jubako::Reader::from(jubako::FileSource::open(p)?)));
+            }
+        }
+        Ok(None)
+    }
 }
 
 impl Case {
     fn encode(&self) -> String {
         format!(
-            "subset={:b} kind={:?} instant={:?} damaged={} order={}",
-            self.subset, self.kind, self.instant, self.damaged, self.order_seed
+            "subset={:b} kind={:?} instant={:?} damaged={} order={}{}",
+            self.subset, self.kind, self.instant, self.damaged, self.order_seed,
+            if self.custom_locator { " locator=application-provided" } else { "" }
         )
     }
 }
@@ -112,6 +134,39 @@ fn containers(seed: u64, tier: Tier) -> Vec<(String, Logical)> {
                     },
                 ));
             }
+            if p >= 2 && (k % 3 == 1 || p == 3) {
+                // content pack ids need not be contiguous: the highest id moves up by two, and the
+                // directory pack is not the first pack listed
+                let mut sparse = contents_clone(&contents);
+                for c in sparse.iter_mut() {
+                    if c.pack == p {
+                        c.pack = p + 2;
+                    }
+                }
+                out.push((
+                    format!("c11-sparse-ids-p{p}-{}{suffix}", comp.name()),
+                    Logical {
+                        comp,
+                        packaging: if k % 2 == 0 { Packaging::Concat } else { Packaging::Loose },
+                        n_packs: p + 2,
+                        contents: sparse,
+                        schema: SchemaSpec {
+                            key_prefix: 2,
+                            store: StoreKind::Plain,
+                            variants: false,
+                            key_pad: 0,
+                        },
+                        dedup: false,
+                        aux_seed: rng.next_u64(),
+                        opts: gen::LogicalOpts {
+                            absent_ids: 0b11 << (p - 1),
+                            dir_not_first: k % 2 == 1,
+                            shuffle_manifest: k % 4 == 1,
+                            ..Default::default()
+                        },
+                    },
+                ));
+            }
             out.push((
                 format!("c11-p{p}-{}{suffix}", comp.name()),
                 Logical {
@@ -143,7 +198,9 @@ fn contents_clone(c: &[ContentSpec]) -> Vec<ContentSpec> {
     c.to_vec()
 }
 
-fn cases_for(n_packs: u16, seed: u64) -> Vec<Case> {
+fn cases_for(model: &gen::Model, seed: u64) -> Vec<Case> {
+    let n_packs = model.n_packs;
+    let absent_mask = model.absent_ids;
     let mut out = vec![];
     let mut rng = Rng::derive(seed, "c11-cases", n_packs as u64);
     // fault-free configuration first
@@ -153,8 +210,20 @@ fn cases_for(n_packs: u16, seed: u64) -> Vec<Case> {
         instant: Instant::BeforeOpen,
         damaged: 0,
         order_seed: 1,
+        custom_locator: false,
+    });
+    out.push(Case {
+        subset: 0,
+        kind: Kind::Removed,
+        instant: Instant::BeforeOpen,
+        damaged: 0,
+        order_seed: 2,
+        custom_locator: true,
     });
     for subset in 1u32..(1 << n_packs) {
+        if subset & absent_mask != 0 {
+            continue;
+        }
         for kind in [Kind::Removed, Kind::Directory, Kind::OtherPack, Kind::Renamed] {
             for instant in [Instant::BeforeOpen, Instant::AfterOpen, Instant::AfterFirstAccess] {
                 out.push(Case {
@@ -163,25 +232,28 @@ fn cases_for(n_packs: u16, seed: u64) -> Vec<Case> {
                     instant,
                     damaged: 0,
                     order_seed: rng.next_u64(),
+                    custom_locator: false,
                 });
-                // a second access order
+                // a second access order, through an application-provided locator
                 out.push(Case {
                     subset,
                     kind,
                     instant,
                     damaged: 0,
                     order_seed: rng.next_u64(),
+                    custom_locator: true,
                 });
             }
             // "the container check covers the packs that are present": damage each present pack
             for d in 1..=n_packs {
-                if subset & (1 << (d - 1)) == 0 {
+                if subset & (1 << (d - 1)) == 0 && !model.is_absent(d) {
                     out.push(Case {
                         subset,
                         kind,
                         instant: Instant::BeforeOpen,
                         damaged: d,
                         order_seed: rng.next_u64(),
+                        custom_locator: d % 2 == 0,
                     });
                 }
             }
@@ -189,12 +261,16 @@ fn cases_for(n_packs: u16, seed: u64) -> Vec<Case> {
     }
     // damage with nothing missing
     for d in 1..=n_packs {
+        if model.is_absent(d) {
+            continue;
+        }
         out.push(Case {
             subset: 0,
             kind: Kind::Removed,
             instant: Instant::BeforeOpen,
             damaged: d,
             order_seed: rng.next_u64(),
+            custom_locator: d % 2 == 1,
         });
     }
     out
@@ -215,7 +291,7 @@ struct Image {
 }
 
 fn apply_fault(dir: &Path, img: &Image, case: &Case) {
-    for p in 1..=img.model.n_packs {
+    for p in img.model.pack_ids() {
         if case.subset & (1 << (p - 1)) == 0 {
             continue;
         }
@@ -247,7 +323,7 @@ fn apply_fault(dir: &Path, img: &Image, case: &Case) {
             }
             Kind::OtherPack => {
                 // another pack of this container when there is one that stays available, else a foreign one
-                let other = (1..=img.model.n_packs).find(|q| *q != p && case.subset & (1 << (q - 1)) == 0);
+                let other = img.model.pack_ids().into_iter().find(|q| *q != p && case.subset & (1 << (q - 1)) == 0);
                 let bytes = match other {
                     Some(q) => img
                         .files
@@ -313,7 +389,17 @@ fn run_case(dir: &Path, img: &Image, case: &Case) -> Vec<String> {
         apply_fault(dir, img, case);
     }
     let entry = dir.join(&img.files[0].0);
-    let container = match jubako::reader::Container::new(&entry) {
+    let opened = if case.custom_locator {
+        jubako::reader::Container::new_with_locator(
+            &entry,
+            Arc::new(SearchPathLocator {
+                dirs: vec![dir.join("no-such-dir"), dir.to_path_buf()],
+            }),
+        )
+    } else {
+        jubako::reader::Container::new(&entry)
+    };
+    let container = match opened {
         Ok(c) => c,
         Err(e) => {
             bad.push(format!("Container::new failed: {}", dump::err_class(&e)));
@@ -327,7 +413,7 @@ fn run_case(dir: &Path, img: &Image, case: &Case) -> Vec<String> {
     Rng::derive(case.order_seed, "c11-order", 0).shuffle(&mut order);
     if case.instant == Instant::AfterFirstAccess {
         // touch every pack once, then pull the files away
-        for p in 1..=img.model.n_packs {
+        for p in img.model.pack_ids() {
             let _ = container.get_pack(jubako::PackId::from(p));
         }
         apply_fault(dir, img, case);
@@ -379,7 +465,16 @@ fn run_case(dir: &Path, img: &Image, case: &Case) -> Vec<String> {
         }
     }
     // pack level
-    for p in 1..=img.model.n_packs {
+    for p in 1..=img.model.n_packs + 1 {
+        if img.model.is_absent(p) || p > img.model.n_packs {
+            // an id the manifest does not list: "no such pack", not an error, not a pack
+            match container.get_pack(jubako::PackId::from(p)) {
+                Ok(None) => {}
+                Ok(Some(_)) => bad.push(format!("get_pack({p}) answers a pack although the manifest lists no pack with that id")),
+                Err(e) => bad.push(format!("get_pack({p}) (id not in the manifest) returned Err({})", dump::err_class(&e))),
+            }
+            continue;
+        }
         match container.get_pack(jubako::PackId::from(p)) {
             Err(e) => bad.push(format!("get_pack({p}) returned Err({})", dump::err_class(&e))),
             Ok(None) => bad.push(format!("get_pack({p}) says unknown pack id")),
@@ -479,7 +574,7 @@ pub fn worker_main(args: &Args, w: usize, n: usize) -> ! {
         let embedded = logical.packaging == Packaging::Concat;
         let pack_file: BTreeMap<u16, String> = if embedded {
             // the locations recorded in the manifest are the names the loose files had
-            (1..=logical.n_packs).map(|p| (p, format!("{name}.c{p}.jbkc"))).collect()
+            built.model.pack_ids().into_iter().map(|p| (p, format!("{name}.c{p}.jbkc"))).collect()
         } else {
             built
                 .pack_files
@@ -499,7 +594,7 @@ pub fn worker_main(args: &Args, w: usize, n: usize) -> ! {
             embedded,
             empty_locations: logical.opts.empty_locations,
         };
-        let cases = cases_for(img.model.n_packs, simcore::prng::hash_label(args.seed, &name, 0));
+        let cases = cases_for(&img.model, simcore::prng::hash_label(args.seed, &name, 0));
         let total = cases.len() as u64;
         println!(
             "{}",
